@@ -20,6 +20,7 @@ import (
 	"go/parser"
 	"io/ioutil"
 	"os"
+	"path/filepath"
 
 	"golang.org/x/tools/go/loader"
 )
@@ -44,12 +45,19 @@ func load(ignoreDerived bool, paths ...string) (*loader.Program, error) {
 	}
 	if ignoreDerived {
 		initial := make(map[string]bool, len(conf.ImportPkgs))
+		// A package that is named by a relative path (./b) is imported by the other packages of the run under its import path (p/b).
+		// It is the same directory and the same old derived.gen.go: packages named by a relative path are matched by directory.
+		initialDirs := make(map[string]bool)
+		cwd, _ := os.Getwd()
 		for path := range conf.ImportPkgs {
 			initial[path] = true
+			if cwd != "" && build.IsLocalImport(path) {
+				initialDirs[filepath.Join(cwd, path)] = true
+			}
 		}
 		conf.FindPackage = func(ctxt *build.Context, importPath, fromDir string, mode build.ImportMode) (*build.Package, error) {
 			bp, err := ctxt.Import(importPath, fromDir, mode)
-			if !initial[importPath] || bp == nil || !hasDerivedFile(bp) {
+			if bp == nil || !(initial[importPath] || initialDirs[bp.Dir]) || !hasDerivedFile(bp) {
 				return bp, err
 			}
 			return importWithoutDerived(ctxt, bp, mode)
